@@ -49,7 +49,7 @@ def combine(parts):
 
 
 class Flow:
-    def __init__(self, fn, call_rules, const_rules, unknown_tag=0, extra_cells=(), store_rules=(), place_cells=(), init=None):
+    def __init__(self, fn, call_rules, const_rules, unknown_tag=0, extra_cells=(), store_rules=(), place_cells=(), init=None, store_records=()):
         """call_rules: [(regex on the full callee text, 'tag:<n>' | 'arg:<i>' | 'free')]; const_rules: [(regex on rvalue, n)]."""
         self.fn, self.call_rules, self.const_rules = fn, call_rules, const_rules
         self.free = {}      # name -> declaration
@@ -57,6 +57,7 @@ class Flow:
         self.unknown_tag = unknown_tag
         self.extra_cells = list(extra_cells)
         self.store_rules = list(store_rules)  # [(regex on the left-hand side of a store through a projection, counter cell name)]
+        self.store_records = list(store_records)  # [(regex on the stored-to place with group 1 = base local, name)]: counts the store, keeps base and value
         self.place_cells = list(place_cells)  # [(regex on a place text, cell name)]: memory cells for fields reached through a reference (e.g. `(*_1).0`)
         self.init = dict(init or {})          # cell -> term at function entry (default: 0 for `@` cells, free for locals)
 
@@ -99,6 +100,8 @@ class Flow:
                 return n(mm, env) if callable(n) else str(n)
         m = re.match(r"^discriminant\((.*)\)$", rv)
         if m:
+            if (m.group(1) + "#d") in env:
+                return env[m.group(1) + "#d"]
             return self.disc_var(m.group(1))
         m = re.match(r"^const (-?\d+)_\w+$", rv)
         if m:
@@ -191,9 +194,20 @@ class Flow:
                             if c.startswith(m.group(2) + ".") and (m.group(1) + c[len(m.group(2)):]) not in cells:
                                 cells.add(m.group(1) + c[len(m.group(2)):])
                                 changed = True
+        # a local that is matched on keeps its discriminant in a cell of its own: set by `Some(..)` / `None` / `Ok(..)` / `Err(..)` constructors,
+        # copied by moves, a free variable (named disc__N, as before) when the local is the result of a call
+        self._dlocals = set()
+        for b in order:
+            for s_ in fn.blocks[b].stmts:
+                md = re.match(r"^_\d+ = discriminant\((_\d+)\)$", s_)
+                if md:
+                    self._dlocals.add(md.group(1))
+        cells.update(l + "#d" for l in self._dlocals)
         cells.update(self.extra_cells)
         cells.update("@" + nm for _, nm in self.store_rules)
         cells.update("@" + nm for _, nm in self.place_cells)
+        for _, nm in self.store_records:
+            cells.update(["@" + nm, "@" + nm + ".base", "@" + nm + ".val"])
         for rx, act in self.call_rules:
             for a_ in ([] if callable(act) else act.split(";")):
                 if a_.startswith("record:"):
@@ -202,7 +216,7 @@ class Flow:
                 elif a_.startswith("count:"):
                     cells.add(f"@{a_.split(':')[1]}")
         cells = sorted(cells)
-        cv = lambda c, b: "c" + c.replace(".", "f").replace("@", "R") + "_" + b
+        cv = lambda c, b: "c" + c.replace(".", "f").replace("@", "R").replace("#", "D") + "_" + b
         decls = [f"(declare-const on_{b} Bool)" for b in order] + [f"(declare-const {cv(c, b)} Int)" for c in cells for b in order]
         evar = {e: f"e{i}" for i, e in enumerate(es)}
         decls += [f"(declare-const {v} Bool)" for v in evar.values()]
@@ -226,6 +240,14 @@ class Flow:
                     if pc:
                         t = self.rvalue(ms.group(2), env, b)
                         env[pc] = t if t is not None else self.fresh(f"u_{b}_store_{len(self.free)}", f"unknown value stored to {ms.group(1)[:40]} in {b}")
+                    for rx, nm in self.store_records:
+                        ms = re.match(r"^(\(.*\)) = (.*)$", s)
+                        mr = re.search(rx, ms.group(1)) if ms else None
+                        if mr:
+                            env["@" + nm] = f"(+ {env['@' + nm]} 1)"
+                            env["@" + nm + ".base"] = env.get(mr.group(1), "0")
+                            tv = self.rvalue(ms.group(2), env, b)
+                            env["@" + nm + ".val"] = tv if tv is not None else self.fresh(f"u_{b}_sv_{len(self.free)}", f"unknown value stored in {b}")
                     for rx, nm in self.store_rules:
                         ms = re.match(r"^(\(.*\)) = (.*)$", s)
                         if ms and re.search(rx, ms.group(1)):
@@ -242,6 +264,15 @@ class Flow:
                     continue
                 t = self.rvalue(rv, env, b)
                 env[lhs] = t if t is not None else self.fresh(f"u_{b}{lhs}", f"unknown rvalue `{rv[:60]}` in {b}")
+                if (lhs + "#d") in env:
+                    mk = re.match(r"^[\w:<>, '()&\[\]]*?::(Some|None|Ok|Err)\b", rv)
+                    mv = re.match(r"^(?:copy|move) (_\d+)$", rv)
+                    if mk:
+                        env[lhs + "#d"] = {"Some": "1", "None": "0", "Ok": "0", "Err": "1"}[mk.group(1)]
+                    elif mv and (mv.group(1) + "#d") in env:
+                        env[lhs + "#d"] = env[mv.group(1) + "#d"]
+                    else:
+                        env[lhs + "#d"] = self.disc_var(lhs)
                 msrc = re.match(r"^(?:.*::(?:Ok|Some)\()?(?:copy|move) (_\d+)\)?$", rv)
                 for c in cells:  # a whole-local assignment supersedes stale field cells (fields travel with a whole-local move)
                     if c.startswith(lhs + "."):
@@ -297,6 +328,8 @@ class Flow:
                 if val is None:
                     val = self.fresh(f"r_{b}", f"result of {callee[:70]} in {b}")
                 mm = re.match(r"^(_\d+)$", (dest or "").strip())
+                if mm and (mm.group(1) + "#d") in env:
+                    env[mm.group(1) + "#d"] = self.disc_var(mm.group(1))
                 if mm:
                     env[mm.group(1)] = val
                     for cc in cells:
